@@ -192,6 +192,31 @@ fn faults_of(seed: &[bool]) -> Vec<Input> {
             }
         }
     }
+    // length determinants and indices sit at arbitrary bit offsets: every 8- and 16-bit window at every BIT
+    // offset overwritten with the octet patterns that select the length forms (0x7F/0x80: one / two octet form,
+    // 0xBF: largest two octet form, 0xC1/0xC4: 16K / 64K fragment headers, all ones, all zeros)
+    for i in 0..n.saturating_sub(7) {
+        for pat in [0x00u8, 0xFF, 0x7F, 0x80, 0xBF, 0xC1, 0xC4] {
+            let mut b = seed.to_vec();
+            for k in 0..8 {
+                b[i + k] = pat & (0x80 >> k) != 0;
+            }
+            if b != seed {
+                out.push(Input { bits: b, how: format!("set 8 bits at bit {i} to {pat:02x}") });
+            }
+        }
+    }
+    for i in 0..n.saturating_sub(15) {
+        for pat in [0xFFFFu16, 0x8000, 0xBFFF, 0x7FFF, 0xC100] {
+            let mut b = seed.to_vec();
+            for k in 0..16 {
+                b[i + k] = pat & (0x8000 >> k) != 0;
+            }
+            if b != seed {
+                out.push(Input { bits: b, how: format!("set 16 bits at bit {i} to {pat:04x}") });
+            }
+        }
+    }
     out
 }
 
